@@ -1529,7 +1529,11 @@ fn forward_device_data(
         let skip_current_client = Some(&outgoing.client_id) != shared_group.current_client();
 
         if skip_current_client {
-            return if caughtup {
+            // park only when the group has nothing unread. Parking with unread publishes
+            // (because this read reached the end of the log) leaves them stranded when the
+            // member whose turn it is goes away: nothing wakes a parked request but a new
+            // publish
+            return if publishes.is_empty() {
                 ConsumeStatus::FilterCaughtup
             } else {
                 ConsumeStatus::SkipRequest
